@@ -319,6 +319,34 @@ def run(ck, F):
                     ck.note(f'{inst}: {THROW_ALLOW[t2]}')
                     continue
                 ck.check(R4, inst, ok, f'{f["id"]} throws {t}, which is not derived from std::logic_error', loc=f['loc'], fn=f['id'])
+    # ---------------------------------------------------------------- no link is left indeterminate by a constructor
+    R7 = ck.rule('C14.links-initialised', 'every user-provided constructor of a library class initialises each raw-pointer member that has '
+                 'no default member initialiser (in its initialiser list or by assignment in its body): a link that was never set reads '
+                 'as null and is refused, never as an indeterminate value that passes the null test', floor=15)
+    for name, r in sorted(F.rec.items()):
+        if not name.startswith('ipr::') or r.get('lambda'):
+            continue
+        ptrs = [fl for fl in r['fields'] if fl['t'].rstrip().endswith('*') and 'init' not in fl]
+        if not ptrs:
+            continue
+        for m in r['methods']:
+            c = F.fn.get(m['id']) if m.get('ctor') else None
+            if c is None or c.get('implicit') or c.get('defaulted') or c.get('body') is None:
+                continue
+            inits = c.get('inits', [])
+            if any(i.get('kind') not in ('base', 'member') for i in inits):
+                continue                    # delegating: the target constructor is judged
+            inited = {i.get('name') for i in inits if i.get('kind') == 'member'}
+            for nd in walk(c.get('body')):
+                if nd.get('k') == 'binop' and nd.get('op') == '=':
+                    lhs = strip_casts(nd['l'])
+                    if lhs.get('k') == 'member':
+                        inited.add(lhs.get('name'))
+            miss = [fl['name'] for fl in ptrs if fl['name'] not in inited]
+            ck.check(R7, contracts.short(contracts.fn_qname(c['id'])) + '/' + str(len(c['params'])), not miss,
+                     f'{c["id"]} leaves the pointer member(s) {miss} of {contracts.short(name)} indeterminate: a later read of the link passes '
+                     'the null test with a garbage value instead of being refused', loc=c['loc'], fn=c['id'])
+
     # std::get on the function-declaration variant must be dominated by an index() test
     R6 = ck.rule('C14.variant-access', 'std::get on the parameter-list/mapping variant of a function declaration is reached only '
                  'under the matching index() test', floor=3)
@@ -330,13 +358,9 @@ def run(ck, F):
         st = State()
         o = st.new_obj(fd)
         outs = S.run(f['id'], this=o, args=[], state=st)
-        good = True
-        for s2, k, v in outs:
-            txt = contracts.render(v, s2, {o[1]: 'R'}) + ' ' + ' '.join(contracts.render(e[2], s2, {o[1]: 'R'}) if len(e) > 2 and isinstance(e[2], tuple) else '' for e in s2.effects)
-            ct = contracts.render_conds(s2.conds, s2, {o[1]: 'R'})
-            for alt, want in (('get<0', '(R.data.variant'), ('get<1', '!(R.data.variant')):
-                if alt in txt and not any(('index() == 0)' in c_) and c_.startswith(want[:1] if want.startswith('!') else '(') for c_ in ct.split(' && ')):
-                    good = False
+        # std::get<I> is modelled by the evaluator: the alternative when the path condition fixes index() == I,
+        # std::bad_variant_access on the paths where it does not
+        good = not any(k == 'throw' and v == 'std::bad_variant_access' for s2, k, v in outs)
         ck.check(R6, 'Fundecl::' + f['name'], good, f'{f["id"]}: variant alternative read without the matching index() test', loc=f['loc'], fn=f['id'])
 
 
